@@ -49,9 +49,10 @@ if os.path.isdir(rroot):
                "the property checks; every check must stay silent. `alarms now` is the result of the last run after the rules and the\n"
                "interpreter were made robust; the honest history of first runs (11, 10, 8, 14 and 7 of 24 alarmed at first) and what each\n"
                "wave changed in the machinery is in section 0. Coverage of that last run: the sixteen fast checks (C01-C08, C10, C13-C18, C20)\n"
-               "on all 120; the typestate checks C09/C11/C12 (minutes each) on waves 1-2 (48 refactorings) and on ref-A3-1..4, ref-A4-1,\n"
-               "ref-A4-2 - the rest of waves 3-5 was not run against them for lack of time. One refactoring is still reported although\n"
-               "behaviour is unchanged: ref-D5-3 (known limitation, section 0 / section 9).\n")
+               "on all 120; the typestate checks C09/C11/C12 (minutes each) on waves 1-2, 4 and 5 and on ref-A3-1..4 (100 refactorings) -\n"
+               "the other 20 of wave 3 were run against them only before the later engine changes. Two refactorings are still reported\n"
+               "although behaviour is unchanged: ref-D5-3 (C07 / R07.3) and ref-E5-3 (typestate checks end INCOMPLETE); both are known\n"
+               "limitations described in section 0 and section 9.\n")
     out.append("| refactoring | what it restructures | alarms now |")
     out.append("|---|---|---|")
     for rid in sorted(os.listdir(rroot)):
